@@ -1,1 +1,304 @@
-static void run_mod(void) {}
+/* Modular layer.  Included by h_c01.c.
+ * Documented domains kept (header comments + what the code visibly assumes):
+ *   bn_mod_add/sub        operands already reduced (a, b < m), m > 0  (one conditional subtraction only)
+ *   bn_mod_exp(_digit)    a < m, m >= 2  (exp == 1 returns bn untouched, exp == 0 returns 1)
+ *   bn_mod_inv            "assuming inverse exists": 0 < a < m, gcd(a, m) == 1, m odd (binary inversion halves modulo m)
+ *   bn_mod_reduce         m >= 2
+ *   bn_mod_legendre/sqrt  "m - odd prime"
+ */
+enum {
+	M_MOD, M_ADD, M_SUB, M_MULT, M_MULT_AL, M_SQUARE, M_MULT_DIGIT, M_EXP, M_EXP_DIGIT,
+	M_INV, M_REDUCE, M_LEGENDRE, M_SQRT, M__N
+};
+static const char *mod_name[M__N] = {
+	"bn_mod", "bn_mod_add", "bn_mod_sub", "bn_mod_mult", "bn_mod_mult/bn=n", "bn_mod_square",
+	"bn_mod_mult_digit", "bn_mod_exp", "bn_mod_exp_digit", "bn_mod_inv", "bn_mod_reduce",
+	"bn_mod_legendre", "bn_mod_sqrt"
+};
+static uint64_t g_sqrt_refused_qr = 0;	/* bn_mod_sqrt said "no root"/error although a root exists (loud, not a violation) */
+
+static void
+exec_mod(int op, const R *a, size_t ca, const R *b, const R *m, size_t cm, uint8_t fill, res_t *o) {
+	bn_p X = slot[0], Y = slot[1], M = slot[3];
+	static bn_mod_rd_data_t rd;
+	size_t cb = cap_min(b);
+
+	memset(o, 0, sizeof(*o));
+	memset(&rd, 0, sizeof(rd));
+	bn_make(X, a, ca, fill);
+	bn_make(Y, b, cb, fill);
+	bn_make(M, m, cm, fill);
+	g_crashed = 0;
+	switch (op) {
+	case M_MOD:	GUARDED(o->rc = bn_mod(X, M, &rd)); break;
+	case M_ADD:	GUARDED(o->rc = bn_mod_add(X, Y, M, &rd)); break;
+	case M_SUB:	GUARDED(o->rc = bn_mod_sub(X, Y, M, &rd)); break;
+	case M_MULT:	GUARDED(o->rc = bn_mod_mult(X, Y, M, &rd)); break;
+	case M_MULT_AL:	GUARDED(o->rc = bn_mod_mult(X, X, M, &rd)); break;
+	case M_SQUARE:	GUARDED(o->rc = bn_mod_square(X, M, &rd)); break;
+	case M_MULT_DIGIT: GUARDED(o->rc = bn_mod_mult_digit(X, r_to_digit(b), M, &rd)); break;
+	case M_EXP:	GUARDED(o->rc = bn_mod_exp(X, Y, M, &rd)); break;
+	case M_EXP_DIGIT: GUARDED(o->rc = bn_mod_exp_digit(X, (size_t)r_low_u64(b), M, &rd)); break;
+	case M_INV:	GUARDED(o->rc = bn_mod_inv(X, M, &rd)); break;
+	case M_REDUCE:	GUARDED(o->rc = bn_mod_reduce(X, M, &rd)); break;
+	case M_LEGENDRE: GUARDED(o->rc = bn_mod_legendre(X, M, &rd)); break;
+	case M_SQRT:	GUARDED(o->rc = bn_mod_sqrt(X, M, &rd)); break;
+	}
+	o->crashed = g_crashed;
+	if (o->crashed)
+		return;
+	if (M_LEGENDRE == op) {	/* the return value is the result; anything outside -1..1 is an error code */
+		o->aux = (uint64_t)(o->rc + 1);
+		o->rc = (o->rc >= -1 && o->rc <= 1) ? 0 : o->rc;
+		return;
+	}
+	if (!RC_OK(o->rc))
+		return;
+	bn_read(X, &o->v1); o->den = bn_denorm(X);
+}
+
+#define FAILM(clause, what) vh_fail(clause, "%s: a=0x%s (cap %zu) b=0x%s m=0x%s (cap %zu) rc=0 got=0x%s want=0x%s stale=0x%02x", \
+	what, HX(a, hx1), ca, HX(b, hx2), HX(m, hx3), cm, HX(got, hx4), HX(&want, hx5), g_fill)
+static char hx5[300];
+
+static int
+ref_legendre(const R *a, const R *p) {	/* Euler's criterion, p odd prime */
+	R e, t, one, pm1;
+	r_set_u64(&one, 1);
+	r_mod(&t, a, p);
+	if (r_is_zero(&t)) return (0);
+	r_sub(&pm1, p, &one); r_shr(&e, &pm1, 1);
+	r_powmod(&t, a, &e, p);
+	return (r_is_one(&t) ? 1 : -1);
+}
+
+static void
+check_mod(int op, const R *a, size_t ca, const R *b, const R *m, size_t cm, const res_t *o) {
+	R want, t, one; const R *got = &o->v1;
+	int bad = 0;
+
+	if (o->crashed) return;
+	r_set_u64(&one, 1); r_zero(&want);
+	if (r_is_zero(m)) {	/* only bn_mod is called with m == 0 */
+		if (RC_OK(o->rc)) vh_fail("div-by-zero-accepted", "a=0x%s m=0 returned 0", HX(a, hx1));
+		return;
+	}
+	if (!RC_OK(o->rc)) {
+		if (M_SQRT == op && 1 == ref_legendre(a, m)) g_sqrt_refused_qr ++;
+		return;
+	}
+	switch (op) {
+	case M_MOD:	r_mod(&want, a, m); if (!r_eq(got, &want)) { bad = 1; FAILM("value", "a mod m"); } break;
+	case M_ADD:	r_add(&t, a, b); r_mod(&want, &t, m); if (!r_eq(got, &want)) { bad = 1; FAILM("value", "(a+b) mod m"); } break;
+	case M_SUB:	r_add(&t, a, m); r_sub(&t, &t, b); r_mod(&want, &t, m); if (!r_eq(got, &want)) { bad = 1; FAILM("value", "(a-b) mod m"); } break;
+	case M_MULT: case M_MULT_DIGIT:
+		r_mulmod(&want, a, b, m); if (!r_eq(got, &want)) { bad = 1; FAILM("value", "(a*b) mod m"); } break;
+	case M_MULT_AL: case M_SQUARE:
+		r_mulmod(&want, a, a, m); if (!r_eq(got, &want)) { bad = 1; FAILM("value", "(a*a) mod m"); } break;
+	case M_EXP: case M_EXP_DIGIT:
+		r_powmod(&want, a, b, m); if (!r_eq(got, &want)) { bad = 1; FAILM("value", "a^b mod m"); } break;
+	case M_INV:	/* the inverse in [0, m) is unique: verify instead of recomputing */
+		r_mulmod(&t, got, a, m);
+		r_set_u64(&want, 1);
+		if (r_cmp(got, m) >= 0 || !r_is_one(&t)) { want = t; bad = 1; FAILM("value", "got*a mod m (shown as want) must be 1 and got < m"); }
+		break;
+	case M_REDUCE:
+		if (r_cmp(a, m) < 0) want = *a;
+		else { r_sub(&t, m, &one); r_mod(&want, a, &t); r_add(&want, &want, &one); }
+		if (!r_eq(got, &want)) { bad = 1; FAILM("value", "a<m ? a : (a mod (m-1))+1"); }
+		break;
+	case M_LEGENDRE: {
+		int l = ref_legendre(a, m);
+		if ((int)o->aux - 1 != l) { bad = 1; vh_fail("value", "legendre(0x%s / 0x%s) returned %d, Euler criterion gives %d (cap %zu, stale 0x%02x)", HX(a, hx1), HX(m, hx3), (int)o->aux - 1, l, ca, g_fill); }
+		break; }
+	case M_SQRT:
+		r_mulmod(&t, got, got, m); r_mod(&want, a, m);
+		if (r_cmp(got, m) >= 0 || !r_eq(&t, &want)) { bad = 1; FAILM("value", "got^2 mod m must equal a mod m (shown as want) and got < m"); }
+		break;
+	}
+	if (!bad && o->den) { bad = 1; FAILM("denormalized", "value right but digits field/top digit not normal"); }
+	if (!bad) vh_nontrivial();
+}
+
+/* ---------------------------------------------------------------- value sets of the modular layer */
+static vset_t VS_PRIMES, VS_EXPS, VS_SMALLP;
+static const char *prime_hex[] = {
+	"3", "5", "7", "d", "11", "61", "c1", "f1", "fb", "101", "3001", "a001", "ff9d", "ffef", "fff1", "10001",
+	"7fffffff", "ffffff79", "ffffff9d", "fffffffb", "fffffffffdf1", "ffffffffffc5", "1fffffffffffffff",
+	"ffffffffffffffa1", "ffffffffffffffc5", "ffffffff00000001", "1ffffffffffffffffffffff",
+	"ffffffffffffffffffffffa9", "ffffffffffffffffffffff6d", "7ffffffffffffffffffffffffff",
+	"7fffffffffffffffffffffffffffffff", "ffffffffffffffffffffffffffffff61", "fffffffffffffffffffffffffffffeed",
+	"3fffffffffffffffffffffffffffffffb", "fffffffffffffffffffffffffffffffeffffffffffffffff",
+	"fffffffffffffffffffffffffffffffffffffffffffffe71", "fffffffffffffffffffffffffffffffffffffffffffffc6d",
+	"ffffffffffffffffffffffffffffffff000000000000000000000001",
+	"7fffffffffffffffffffffffffffffffffffffffffffffffffffffffffffffed",
+	"fffffffffffffffffffffffffffffffffffffffffffffffffffffffefffffc2f",
+	"ffffffff00000001000000000000000000000000ffffffffffffffffffffffff",
+	"fffffffffffffffffffffffffffffffffffffffffffffffffffffffffffff7f1",
+	"fffffffffffffffffffffffffffffffffffffffffffffffffffffffffffffe4d",
+	"fffffffffffffffffffffffffffffffffffffffffffffffffffffffffffffffeffffffff0000000000000000ffffffff",
+	"fffffffffffffffffffffffffffffffffffffffffffffffffffffffeffffffffffffffffffffffffffffffffffffffffffffffffffffffff",
+	NULL
+};
+static void
+modsets_init(void) {
+	size_t n = 0, i; R v, one, t; int k;
+	r_set_u64(&one, 1);
+	/* primes: the fixed list (verified prime with sympy while writing the harness) up to 4 digits;
+	 * scope 0 adds every odd prime below 2^8 by trial division */
+	VS_PRIMES.kind = 1; VS_PRIMES.arr = (R *)calloc(160, sizeof(R));
+#if C01_SCOPE == 0
+	for (k = 3; k < 256; k += 2) {
+		int d, pr = 1;
+		for (d = 3; d * d <= k; d += 2) if (0 == k % d) pr = 0;
+		if (pr) r_set_u64(&VS_PRIMES.arr[n ++], (uint64_t)k);
+	}
+#endif
+	for (i = 0; NULL != prime_hex[i]; i ++) {
+		r_from_hex(&v, prime_hex[i]);
+		if (r_ndigits(&v) > 4) continue;
+#if C01_SCOPE == 0
+		if (r_bitlen(&v) <= 8) continue;	/* already there */
+#endif
+#if C01_SCOPE == 2
+		if (r_ndigits(&v) > 2 && W > 8) continue;
+#endif
+		VS_PRIMES.arr[n ++] = v;
+	}
+	VS_PRIMES.n = n;
+	/* exponents */
+	VS_EXPS.kind = 1; VS_EXPS.arr = (R *)calloc(32, sizeof(R)); n = 0;
+	{ static const uint64_t e[] = { 0, 1, 2, 3, 4, 5, 6, 7, 8, 15, 16, 17 };
+	  for (i = 0; i < sizeof(e) / sizeof(e[0]); i ++) r_set_u64(&VS_EXPS.arr[n ++], e[i]); }
+	alpha_digit(4, &VS_EXPS.arr[n ++]);	/* top bit */
+	alpha_digit(6, &VS_EXPS.arr[n ++]);	/* MAX */
+	r_shl(&VS_EXPS.arr[n ++], &one, W);	/* B */
+	r_shl(&t, &one, W); r_add(&VS_EXPS.arr[n ++], &t, &one);	/* B+1 */
+	r_shl(&t, &one, 2 * W); r_sub(&VS_EXPS.arr[n ++], &t, &one);	/* B^2-1 */
+	VS_EXPS.n = n;
+}
+
+/* operand set for modulus m: base set plus values hugging m */
+static size_t
+operands_for(const R *m, const vset_t *base, int all_below_256, R *out, size_t max) {
+	size_t n = 0, i; R one, two, t;
+	r_set_u64(&one, 1); r_set_u64(&two, 2);
+	if (all_below_256 && r_bitlen(m) <= 8) {
+		for (i = 0; i < (size_t)r_low_u64(m) && n < max; i ++) r_set_u64(&out[n ++], i);
+		return (n);
+	}
+	for (i = 0; i < base->n && n + 6 < max; i ++) out[n ++] = base->arr[i];
+	if (r_cmp(m, &one) >= 0) { r_sub(&out[n ++], m, &one); }
+	if (r_cmp(m, &two) >= 0) { r_sub(&out[n ++], m, &two); }
+	r_shr(&out[n ++], m, 1);
+	r_shr(&t, m, 1); r_add(&out[n ++], &t, &one);
+	r_add(&out[n ++], m, &one);
+	out[n ++] = *m;
+	return (n);
+}
+
+static int
+mod_domain(int op, const R *a, const R *b, const R *m) {
+	R g, two; r_set_u64(&two, 2);
+	switch (op) {
+	case M_MOD: return (1);
+	case M_ADD: case M_SUB: return (!r_is_zero(m) && r_cmp(a, m) < 0 && r_cmp(b, m) < 0);
+	case M_MULT: case M_MULT_AL: case M_SQUARE: return (!r_is_zero(m));
+	case M_MULT_DIGIT: return (!r_is_zero(m) && r_ndigits(b) <= 1);
+	case M_EXP: return (r_cmp(m, &two) >= 0 && r_cmp(a, m) < 0);
+	case M_EXP_DIGIT: return (r_cmp(m, &two) >= 0 && r_cmp(a, m) < 0 && r_fits_u64(b));
+	case M_INV:
+		if (r_is_zero(a) || r_cmp(a, m) >= 0 || 0 == r_bit(m, 0)) return (0);
+		r_gcd(&g, a, m); return (r_is_one(&g));
+	case M_REDUCE: return (r_cmp(m, &two) >= 0);
+	}
+	return (1);	/* legendre / sqrt: m comes from the prime list */
+}
+
+#define MAXOPS 420
+static void
+run_mod_op(int op, const vset_t *mods, const vset_t *abase, const vset_t *bset, int exhaustive8) {
+	static R as[MAXOPS], bs[MAXOPS];
+	size_t im, ic, i, j, na, nb; R m, zero; res_t r1, r2;
+	int two_operand = (M_ADD == op || M_SUB == op || M_MULT == op || M_MULT_DIGIT == op || M_EXP == op || M_EXP_DIGIT == op);
+
+	r_zero(&zero);
+	for (im = 0; im < mods->n; im ++) {
+		size_t ndm, caps[3];
+		vs_get(mods, im, &m);
+		if (r_is_zero(&m) && M_MOD != op) continue;
+		ndm = cap_min(&m);
+		caps[0] = ndm; caps[1] = 2 * ndm; caps[2] = 2 * ndm + 1;
+		for (ic = 0; ic < 3; ic ++) {
+			size_t ca = caps[ic], cm = (im & 1) ? ca : ndm;
+			if (!vh_begin(mod_name[op])) continue;
+			d_op = mod_name[op]; d_a = m; d_cap = ca; d_set = "operands for this modulus (a= is the modulus)";
+			vh_publish_desc();
+			na = operands_for(&m, abase, exhaustive8, as, MAXOPS);
+			if ((M_SQRT == op || M_LEGENDRE == op) && r_bitlen(&m) > 8) {	/* guarantee quadratic residues: squares of the first operands */
+				size_t nsq = (na < 24) ? na : 24;
+				for (i = 0; i < nsq && na < MAXOPS; i ++) { r_mulmod(&as[na], &as[i], &as[i], &m); na ++; }
+			}
+			if (!two_operand) { nb = 1; bs[0] = zero; }
+			else if (M_ADD == op || M_SUB == op || M_MULT == op) nb = operands_for(&m, bset, exhaustive8, bs, MAXOPS);
+			else { nb = bset->n; for (j = 0; j < nb; j ++) bs[j] = bset->arr[j]; }
+			for (i = 0; i < na; i ++) {
+				if (r_ndigits(&as[i]) > ca) continue;
+				for (j = 0; j < nb; j ++) {
+					if (!mod_domain(op, &as[i], &bs[j], &m)) continue;
+					CALL_COUNT();
+					g_fill = 0xA5;
+					exec_mod(op, &as[i], ca, &bs[j], &m, cm, 0xA5, &r1);
+					check_mod(op, &as[i], ca, &bs[j], &m, cm, &r1);
+					g_fill = 0x00;
+					exec_mod(op, &as[i], ca, &bs[j], &m, cm, 0x00, &r2);
+					if (!res_same(&r1, &r2))
+						vh_fail("stale-storage", "a=0x%s (cap %zu) b=0x%s m=0x%s: fill 0xA5 -> rc=%d v=0x%s; fill 0x00 -> rc=%d v=0x%s",
+						    HX(&as[i], hx1), ca, HX(&bs[j], hx2), HX(&m, hx3), r1.rc, HX(&r1.v1, hx4), r2.rc, HX(&r2.v1, hx5));
+				}
+			}
+		}
+	}
+}
+
+static void
+run_mod(void) {
+	const vset_t *mods, *ops2 = &VS_A2;
+	int ex8 = 0;
+	modsets_init();
+#if C01_SCOPE == 0
+	ex8 = 1;
+	/* every 1-digit modulus with every operand below it ... */
+	run_mod_op(M_MOD, &VS_EX1, &VS_A3, NULL, 0);
+	run_mod_op(M_ADD, &VS_EX1, &VS_A2, &VS_A2, 1);
+	run_mod_op(M_SUB, &VS_EX1, &VS_A2, &VS_A2, 1);
+	run_mod_op(M_MULT, &VS_EX1, &VS_A2, &VS_A2, 1);
+	run_mod_op(M_MULT_AL, &VS_EX1, &VS_A2, NULL, 1);
+	run_mod_op(M_SQUARE, &VS_EX1, &VS_A2, NULL, 1);
+	run_mod_op(M_MULT_DIGIT, &VS_EX1, &VS_A2, &VS_DX, 1);
+	run_mod_op(M_EXP, &VS_EX1, &VS_A2, &VS_EXPS, 1);
+	run_mod_op(M_EXP_DIGIT, &VS_EX1, &VS_A2, &VS_EXPS, 1);
+	run_mod_op(M_INV, &VS_EX1, &VS_A2, NULL, 1);
+	run_mod_op(M_REDUCE, &VS_EX1, &VS_A3, NULL, 0);
+	mods = &VS_A3;	/* ... and the alphabet moduli up to 3 digits */
+#elif C01_SCOPE == 1
+	mods = &VS_A3;
+#else
+	mods = &VS_A2;
+#endif
+	run_mod_op(M_MOD, mods, g_small, NULL, 0);
+	run_mod_op(M_ADD, mods, ops2, ops2, 0);
+	run_mod_op(M_SUB, mods, ops2, ops2, 0);
+	run_mod_op(M_MULT, mods, ops2, ops2, 0);
+	run_mod_op(M_MULT_AL, mods, ops2, NULL, 0);
+	run_mod_op(M_SQUARE, mods, ops2, NULL, 0);
+	run_mod_op(M_MULT_DIGIT, mods, ops2, &VS_DX, 0);
+	run_mod_op(M_EXP, &VS_A2, &VS_D, &VS_EXPS, 0);
+	run_mod_op(M_EXP_DIGIT, &VS_A2, &VS_D, &VS_EXPS, 0);
+	run_mod_op(M_INV, mods, ops2, NULL, 0);
+	run_mod_op(M_REDUCE, mods, g_small, NULL, 0);
+	/* prime moduli: Legendre symbol and square roots, every residue for primes < 2^8 in scope 0 */
+	run_mod_op(M_LEGENDRE, &VS_PRIMES, ops2, NULL, ex8);
+	run_mod_op(M_SQRT, &VS_PRIMES, ops2, NULL, ex8);
+	printf("NOTE\tmod_sqrt_refused_although_root_exists=%llu\n", (unsigned long long)g_sqrt_refused_qr);
+}
